@@ -840,6 +840,10 @@ def object_streams(ctx: Ctx, book: Book, cover: Cover, pool: dict, by_value: dic
                 do_nlri(res, 'factory', origin)
             elif R.is_wire_attribute(res):
                 do_attr(res, 'factory', origin)
+                if type(res).__name__ != 'AS4Path' and R.encoding_depends_on_asn4(res):
+                    # AS_PATH, AGGREGATOR: a 2-octet session carries them as AS_TRANS + AS4_PATH / AS4_AGGREGATOR
+                    # (RFC 6793 4.2.2) and the receiver reconstructs them (4.2.3): the same law, on that session
+                    do_attr(res, 'factory:2-octet-session', dict(origin, session='2-octet'), asn4=False)
             else:
                 w = R.wrap_component(res)
                 if w is not None:
